@@ -32,6 +32,9 @@ structure Cfg where
   newAvail : Nat → Bool
   /-- does the surplus-idle test count idle connections (repaired) or all connections (1.0.7)? -/
   countIdleOnly : Bool
+  /-- is an idle connection that a request has been handed (and has not started on yet) exempt from the surplus rule and from
+  eviction for room (repaired), or not (1.0.7)? -/
+  protectAssigned : Bool
 
 /-- why the pass hands a connection to `_close_connections` (ghost information) -/
 inductive Reason
@@ -45,6 +48,7 @@ structure State where
   reqs : List Req
   closing : List (Conn × Reason)   -- connections handed to `_close_connections` by this pass
   nextId : Nat
+  reserved : List Nat := []        -- ids of connections that some request has been assigned (`reserved` in the source)
   deriving Repr
 
 def fresh (cfg : Cfg) (id origin : Nat) : Conn :=
@@ -55,22 +59,24 @@ def fresh (cfg : Cfg) (id origin : Nat) : Conn :=
 def surplusCount (cfg : Cfg) (cur : List Conn) : Nat :=
   if cfg.countIdleOnly then (cur.filter (·.idle)).length else cur.length
 
-/-- first loop: `for connection in list(self._connections)` -/
-def cleanup (cfg : Cfg) : List Conn → List Conn → List (Conn × Reason) → List Conn × List (Conn × Reason)
+def isReserved (res : List Nat) (c : Conn) : Bool := res.contains c.id
+
+/-- first loop: `for connection in list(self._connections)`; `res` = the reserved connection ids -/
+def cleanup (cfg : Cfg) (res : List Nat) : List Conn → List Conn → List (Conn × Reason) → List Conn × List (Conn × Reason)
   | [], cur, closing => (cur, closing)
   | c :: rest, cur, closing =>
-    if c.closed then cleanup cfg rest (cur.erase c) closing
-    else if c.expired then cleanup cfg rest (cur.erase c) (closing ++ [(c, .expired)])
-    else if c.idle && surplusCount cfg cur > cfg.maxKeepalive then
-      cleanup cfg rest (cur.erase c) (closing ++ [(c, .surplus (cur.filter (·.idle)).length)])
-    else cleanup cfg rest cur closing
+    if c.closed then cleanup cfg res rest (cur.erase c) closing
+    else if c.expired then cleanup cfg res rest (cur.erase c) (closing ++ [(c, .expired)])
+    else if c.idle && !(isReserved res c) && surplusCount cfg cur > cfg.maxKeepalive then
+      cleanup cfg res rest (cur.erase c) (closing ++ [(c, .surplus (cur.filter (·.idle)).length)])
+    else cleanup cfg res rest cur closing
 
 /-- one iteration of the second loop, for a queued request -/
 def assignOne (cfg : Cfg) (s : State) (r : Req) : State × Req :=
   let avail := s.conns.filter (fun c => c.origin == r.origin && c.available)
-  let idles := s.conns.filter (·.idle)
+  let idles := s.conns.filter (fun c => c.idle && !(isReserved s.reserved c))
   match avail with
-  | c :: _ => (s, { r with conn := some c.id })
+  | c :: _ => ({ s with reserved := if cfg.protectAssigned then c.id :: s.reserved else s.reserved }, { r with conn := some c.id })
   | [] =>
     if s.conns.length < cfg.maxConn then
       let n := fresh cfg s.nextId r.origin
@@ -94,8 +100,9 @@ def assignAll (cfg : Cfg) : State → List Req → List Req → State
 
 /-- `_assign_requests_to_connections` -/
 def pass (cfg : Cfg) (s : State) : State :=
-  let (cur, closing) := cleanup cfg s.conns s.conns []
-  assignAll cfg { s with conns := cur, closing := closing } s.reqs []
+  let res := if cfg.protectAssigned then s.reqs.filterMap (·.conn) else []
+  let (cur, closing) := cleanup cfg res s.conns s.conns []
+  assignAll cfg { s with conns := cur, closing := closing, reserved := res } s.reqs []
 
 end Httpcore.Pool
 
